@@ -237,3 +237,90 @@ theorem generateK_spec (hmac : Bytes → Bytes → Bytes) (hlen : Nat) (hh : 0 <
       exact hres
 
 end Rfc
+
+namespace Rfc
+open Bits Rand
+
+/-- converse of `hLoop_spec`: if the `j`-th candidate is acceptable and exactly `retry` acceptable ones precede it, the loop returns it -/
+theorem hLoop_complete (hmac : Bytes → Bytes → Bytes) (hlen q : Nat) (hh : 0 < hlen)
+    (hlenH : ∀ k m, (hmac k m).length = hlen) (j : Nat) :
+    ∀ (fuel : Nat) (K V : Bytes) (retry : Int) (s : Nat), j < fuel →
+      candAt hmac hlen q j (K, V) = s → acceptable q s → countAcc hmac hlen q j (K, V) = retry.toNat →
+      Rfc6979.hLoop hmac q (qlen q) (rolen q) fuel K V retry = some (.ok s) := by
+  induction j with
+  | zero =>
+    intro fuel K V retry s hf hs hacc hcnt
+    obtain ⟨f, rfl⟩ : ∃ f, fuel = f + 1 := ⟨fuel - 1, by omega⟩
+    unfold Rfc6979.hLoop
+    have ⟨hT, hbpos⟩ := h2Loop_blocks hmac K V hlen q hh hlenH
+    rw [hT]
+    simp only
+    have hTne : (genT hmac K (blocks hlen q) V).2 ≠ [] := by
+      intro he
+      have := genT_length hmac K hlen hlenH (blocks hlen q) V
+      rw [he] at this
+      simp only [List.length_nil] at this
+      have : 0 < blocks hlen q * hlen := Nat.mul_pos hbpos hh
+      omega
+    rw [bits2int_model _ _ hTne]
+    simp only
+    have hcand : bitsVal (List.take (qlen q) (bitsOfBytes (genT hmac K (blocks hlen q) V).2)) = s := hs
+    rw [hcand]
+    have hacc' : 1 ≤ s ∧ s < q := hacc
+    simp only [countAcc] at hcnt
+    rw [if_pos hacc', if_pos (by omega)]
+  | succ j ih =>
+    intro fuel K V retry s hf hs hacc hcnt
+    obtain ⟨f, rfl⟩ : ∃ f, fuel = f + 1 := ⟨fuel - 1, by omega⟩
+    unfold Rfc6979.hLoop
+    have ⟨hT, hbpos⟩ := h2Loop_blocks hmac K V hlen q hh hlenH
+    rw [hT]
+    simp only
+    have hTne : (genT hmac K (blocks hlen q) V).2 ≠ [] := by
+      intro he
+      have := genT_length hmac K hlen hlenH (blocks hlen q) V
+      rw [he] at this
+      simp only [List.length_nil] at this
+      have : 0 < blocks hlen q * hlen := Nat.mul_pos hbpos hh
+      omega
+    rw [bits2int_model _ _ hTne]
+    simp only
+    have hcnt' : (if acceptable q (candidate hmac hlen q (K, V)).1 then 1 else 0) +
+        countAcc hmac hlen q j (candidate hmac hlen q (K, V)).2 = retry.toNat := hcnt
+    have hs' : candAt hmac hlen q j (candidate hmac hlen q (K, V)).2 = s := hs
+    by_cases hc0 : acceptable q (candidate hmac hlen q (K, V)).1
+    · have hc0' : 1 ≤ bitsVal (List.take (qlen q) (bitsOfBytes (genT hmac K (blocks hlen q) V).2)) ∧
+          bitsVal (List.take (qlen q) (bitsOfBytes (genT hmac K (blocks hlen q) V).2)) < q := hc0
+      rw [if_pos hc0] at hcnt'
+      rw [if_pos hc0', if_neg (by omega)]
+      exact ih f (candidate hmac hlen q (K, V)).2.1 (candidate hmac hlen q (K, V)).2.2 (retry - 1) s (by omega) hs' hacc
+        (by show countAcc hmac hlen q j (candidate hmac hlen q (K, V)).2 = _; omega)
+    · have hc0' : ¬ (1 ≤ bitsVal (List.take (qlen q) (bitsOfBytes (genT hmac K (blocks hlen q) V).2)) ∧
+          bitsVal (List.take (qlen q) (bitsOfBytes (genT hmac K (blocks hlen q) V).2)) < q) := hc0
+      rw [if_neg hc0] at hcnt'
+      rw [if_neg hc0']
+      exact ih f (candidate hmac hlen q (K, V)).2.1 (candidate hmac hlen q (K, V)).2.2 retry s (by omega) hs' hacc
+        (by show countAcc hmac hlen q j (candidate hmac hlen q (K, V)).2 = _; omega)
+
+theorem generateK_complete (hmac : Bytes → Bytes → Bytes) (hlen : Nat) (hh : 0 < hlen)
+    (hlenH : ∀ k m, (hmac k m).length = hlen) (q x : Nat) (h1 extra : Bytes) (retry : Int) (fuel j s : Nat)
+    (hx : x < 256 ^ rolen q) (hne : h1 ≠ []) (hj : j < fuel)
+    (hs : stream hmac hlen q x h1 extra j = s) (hacc : acceptable q s)
+    (hcnt : ((List.range j).filter (fun i => decide (acceptable q (stream hmac hlen q x h1 extra i)))).length = retry.toNat) :
+    Rfc6979.generateK hmac hlen q x h1 retry extra fuel = some (.ok s) := by
+  have hq : 1 ≤ q := by unfold acceptable at hacc; omega
+  unfold Rfc6979.generateK
+  simp only
+  rw [rolen_eq_orderlen] at hx
+  rw [numberToString_of_lt hx, bits2octets_model h1 q hne hq]
+  simp only
+  have hkv : Rfc6979.initKV hmac hlen (beFixed (Util.orderlen q) x ++ bits2octets q (bitsOfBytes h1) ++ extra)
+      = initKV hmac hlen q x h1 extra := by
+    rw [← initKV_model, int2octets_eq_beFixed, rolen_eq_orderlen]
+  rw [hkv]
+  unfold stream at hs hcnt
+  generalize initKV hmac hlen q x h1 extra = kv at *
+  obtain ⟨K, V⟩ := kv
+  exact hLoop_complete hmac hlen q hh hlenH j fuel K V retry s hj hs hacc (by rw [countAcc_eq_filter]; exact hcnt)
+
+end Rfc
